@@ -99,7 +99,7 @@ func TestVerifC10(t *testing.T) {
 		Runs:     map[string]int{"quick": 10000, "thorough": 600000},
 		Real:     []string{"RegisteredDecoys.register / markActive -> sendToDetector, RegistrationManager.Cleanup -> clearDetector (message construction, lifetimes)", "go-redis v8 client (PUBLISH over a simulated connection)", "ingest pipeline, handleNewTCPConn (activation), RemoveOldRegistrations"},
 		Stub:     []string{"Redis server (in-process RESP stub that records PUBLISH payloads)", "the Rust detector: Go port of From<&StationToDetector>, SessionDetails::new, pubsub_handle_s2d and the session table (trusted, < 100 lines next to the quoted rules; the detector cannot be built in this sandbox)", "TCP, liveness, covert hosts, ZMQ"},
-		Rule: "random: 1-5 admitted registrations over min / prefix / obfs4, both families, registrant address IPv4 / 16-byte v4-mapped / IPv6 / absent, default and registrar-overridden ports and phantoms (incl. override addresses of the wrong length), followed by connects (Update), idle periods, sweeps, Cleanup and a restart with an empty registry. " +
+		Rule: "random: 1-5 admitted registrations over min / prefix / obfs4, both families, registrant address IPv4 / 16-byte v4-mapped / IPv6 / absent, default and registrar-overridden ports and phantoms (incl. override addresses of the wrong length and an IPv4-mapped address in the IPv6 override field), followed by connects (Update), idle periods, sweeps, Cleanup and a restart with an empty registry. " +
 			"Oracle: every published payload is accepted by the detector model; carries the registration's phantom, port, proto and registrant; timeout = 10 min (New) / 6 h (Update); at every checked instant a registration the station would still match (valid, within its lifetime) has a live session in the model; after Cleanup the model's table is empty. non-trivial = at least one New and one Update or Clear were published; distinct = (transports, families, registrant forms, overrides, history)",
 		Assume: []string{"no loss is injected on the detector channel (the property does not promise retransmission)", "expired-but-not-yet-swept registrations are don't-cares"},
 	})
@@ -300,7 +300,7 @@ func c10Scenario(r *sim.Run) {
 				c.regAddr = nil
 				g.regstr = ""
 			}
-			override := tp.Choose("override", 6)
+			override := tp.Choose("override", 7)
 			var ovPort uint32
 			ov4, ov6 := net.IP(nil), net.IP(nil)
 			msg := c.regMessage(func(wr *pb.C2SWrapper) {
@@ -320,6 +320,10 @@ func c10Scenario(r *sim.Run) {
 					rr.DstPort = proto.Uint32(ovPort)
 				case 4:
 					ov6 = net.IP{0x20, 0x01, 0x0d, 0xb8, 0x01} // wrong length
+				case 6:
+					// the IPv6 override field carries a 16-byte IPv4-mapped address: the registration
+					// of the "IPv6" family then has an IPv4 phantom
+					ov6 = net.IPv4(192, 0, 2, 78).To16()
 				default:
 					ov4 = net.IPv4(192, 0, 2, 201).To4()
 					ovPort = 53
@@ -349,6 +353,9 @@ func c10Scenario(r *sim.Run) {
 				g.ph[1] = c.phantom(true)
 				if ov6 != nil {
 					g.ph[1] = ov6
+				}
+				if ov6.To4() != nil && !registrantV4 {
+					g.ph[1] = nil // an IPv4 phantom needs an IPv4 registrant: not admitted
 				}
 				g.port[1] = c.dstPort(true)
 				if ovPort != 0 {
